@@ -8,7 +8,10 @@
 (*          scalar with a spelling index sp (1.0 / 1.00 / +1.0 / 1e0), sub *)
 (*          a nested mapping given as a sequence of [k, v, sp] entries     *)
 (*   flow : flow ({a: 1}) vs block layout; quoted: quoted processor name   *)
-(*   sweep: NoSweep or [vals (Seq), mode, bc, expr (tree), coll, el]       *)
+(*   sweep: NoSweep or [vals (Seq), ints (values written as YAML ints, a     *)
+(*          different type, not a spelling), mode, bc, expr (tree), coll, el] *)
+(*          ctx2: the sweep has two more variables u, w read from_context;   *)
+(*          vorder: the order in which the variables mapping lists them      *)
 (* Meaning(cfg) forgets order, spelling, layout and the operand order of   *)
 (* + and * in the sweep expression.  Cosmetic actions must keep Meaning,   *)
 (* semantic actions must change it (C04 / C05); every edge is emitted and  *)
@@ -22,7 +25,7 @@ CONSTANTS Seeds,        \* set of seed configurations
 VARIABLES cfg, last, steps, base
 vars == <<cfg, last, steps, base>>
 
-NoSweep == [on |-> FALSE, vals |-> <<>>, mode |-> "", bc |-> FALSE, expr |-> <<>>, coll |-> "", el |-> ""]
+NoSweep == [on |-> FALSE, vals |-> <<>>, ints |-> FALSE, ctx2 |-> FALSE, vorder |-> FALSE, mode |-> "", bc |-> FALSE, expr |-> <<>>, coll |-> "", el |-> ""]
 Spellings == 0..3
 
 (******************************* meaning **********************************)
@@ -34,7 +37,7 @@ ExprNorm(e) == IF Len(e) < 3 THEN e
                     IN IF e[1] \in {"+", "*"} /\ Rank(b) < Rank(a) THEN <<e[1], b, a>> ELSE <<e[1], a, b>>
 
 EntryMeaning(en) == [k |-> en.k, v |-> en.v, sub |-> {[k |-> s.k, v |-> s.v] : s \in {en.sub[i] : i \in 1..Len(en.sub)}}]
-SweepMeaning(sw) == IF ~sw.on THEN sw ELSE [sw EXCEPT !.expr = ExprNorm(sw.expr)]
+SweepMeaning(sw) == IF ~sw.on THEN sw ELSE [sw EXCEPT !.expr = ExprNorm(sw.expr), !.vorder = FALSE]
 NodeMeaning(n) == [proc |-> n.proc,
                    params |-> {EntryMeaning(n.ps[i]) : i \in 1..Len(n.ps)},
                    sweep |-> SweepMeaning(n.sweep)]
@@ -57,7 +60,9 @@ CommuteExpr == \E i \in 1..Len(cfg) :
                   /\ cfg[i].sweep.on /\ Len(cfg[i].sweep.expr) = 3 /\ cfg[i].sweep.expr[1] \in {"+", "*"}
                   /\ cfg[i].sweep.expr[2] # cfg[i].sweep.expr[3]
                   /\ SetNode(i, [cfg[i] EXCEPT !.sweep.expr = <<@[1], @[3], @[2]>>]) /\ last' = "CommuteExpr"
-Cosmetic == PermuteKeys \/ PermuteSubKeys \/ Respell \/ Requote \/ Reflow \/ CommuteExpr
+PermuteVars == \E i \in 1..Len(cfg) : cfg[i].sweep.on /\ cfg[i].sweep.ctx2
+                  /\ SetNode(i, [cfg[i] EXCEPT !.sweep.vorder = ~@]) /\ last' = "PermuteVars"
+Cosmetic == PermuteKeys \/ PermuteSubKeys \/ Respell \/ Requote \/ Reflow \/ CommuteExpr \/ PermuteVars
 
 (******************************* semantic actions *************************)
 OtherProc(p) == IF p = "FloatMultiplyOperation" THEN "VNestedOperation" ELSE "FloatMultiplyOperation"
@@ -83,6 +88,7 @@ SweepField(f) == \E i \in 1..Len(cfg) : cfg[i].sweep.on /\
       [] f = "const" -> SetNode(i, [cfg[i] EXCEPT !.sweep.expr = <<"+", @, <<"c", 1>>>>])
       [] f = "noncomm" -> /\ Len(cfg[i].sweep.expr) = 3 /\ cfg[i].sweep.expr[1] = "-" /\ cfg[i].sweep.expr[2] # cfg[i].sweep.expr[3]
                           /\ SetNode(i, [cfg[i] EXCEPT !.sweep.expr = <<"-", @[3], @[2]>>])
+      [] f = "inttype" -> SetNode(i, [cfg[i] EXCEPT !.sweep.ints = ~@])     \* 1 vs 1.0: another YAML type
       [] f = "oproot" -> /\ Len(cfg[i].sweep.expr) = 3 /\ cfg[i].sweep.expr[1] \in {"+", "*"}
                          /\ SetNode(i, [cfg[i] EXCEPT !.sweep.expr[1] = IF @ = "+" THEN "*" ELSE "+"])
       [] f = "opinner" -> /\ Len(cfg[i].sweep.expr) = 3 /\ Len(cfg[i].sweep.expr[2]) = 3 /\ cfg[i].sweep.expr[2][1] \in {"+", "*"}
@@ -91,8 +97,8 @@ SweepField(f) == \E i \in 1..Len(cfg) : cfg[i].sweep.on /\
                         IN SetNode(i, [cfg[i] EXCEPT !.sweep.el = e2, !.proc = e2])     \* the wrapped processor
 SweepName(f) == CASE f = "vals" -> "SetSweep_vals" [] f = "val1" -> "SetSweep_val1" [] f = "mode" -> "SetSweep_mode"
                    [] f = "bc" -> "SetSweep_bc" [] f = "const" -> "SetSweep_const" [] f = "noncomm" -> "SetSweep_noncomm"
-                   [] f = "el" -> "SetSweep_el" [] f = "oproot" -> "SetSweep_oproot" [] f = "opinner" -> "SetSweep_opinner"
-SetSweep == \E f \in {"vals", "val1", "mode", "bc", "const", "noncomm", "el", "oproot", "opinner"} : SweepField(f) /\ last' = SweepName(f)
+                   [] f = "el" -> "SetSweep_el" [] f = "oproot" -> "SetSweep_oproot" [] f = "inttype" -> "SetSweep_inttype" [] f = "opinner" -> "SetSweep_opinner"
+SetSweep == \E f \in {"vals", "val1", "mode", "bc", "const", "noncomm", "el", "oproot", "opinner", "inttype"} : SweepField(f) /\ last' = SweepName(f)
 Semantic == SetProcessor \/ SetParam \/ SetSubParam \/ DropNode \/ DupNode \/ SwapNodes \/ SetSweep
 
 Init == cfg \in Seeds /\ last = "" /\ steps = 0 /\ base = cfg
@@ -100,7 +106,7 @@ Next == /\ steps < MaxSteps /\ steps' = steps + 1 /\ base' = cfg
         /\ (Cosmetic \/ Semantic)
 Spec == Init /\ [][Next]_vars
 
-CosmeticNames == {"PermuteKeys", "PermuteSubKeys", "Respell", "Requote", "Reflow", "CommuteExpr"}
+CosmeticNames == {"PermuteKeys", "PermuteSubKeys", "Respell", "Requote", "Reflow", "CommuteExpr", "PermuteVars"}
 CosmeticKeepsMeaning == (last \in CosmeticNames) => Meaning(cfg) = Meaning(base)
 SemanticChangesMeaning == (last # "" /\ last \notin CosmeticNames) => Meaning(cfg) # Meaning(base)
 
